@@ -25,10 +25,10 @@ HARN = vlib.VERIF / "harness" / PID
 CORPUS = vlib.VERIF / "corpus" / PID
 
 ALL_TAGS = """I_link I_dup I_root_black I_parent_black I_parent_red
-I_case1_L I_case2_L I_case3_L I_case1_R I_case2_R I_case3_R
+I_case1_L I_case2_L I_case3_L I_case1_R I_case2_R I_case3_R I_case2_sub I_case3_sub
 U_leaf_red U_leaf_black U_right_only U_left_only U_succ_child U_succ_deep U_child2 U_succ_black U_succ_red
 F_case1_L F_case2_red_L F_case2_black_L F_case3_L F_case4_L
-F_case1_R F_case2_red_R F_case2_black_R F_case3_R F_case4_R F_root
+F_case1_R F_case2_red_R F_case2_black_R F_case3_R F_case4_R F_case3_sub F_case4_sub F_root
 R_absent S_found S_absent""".split()
 # F_null_mirror is proved unreachable (RbtInvProofs.null_mirror_unreachable); it is reported if ever hit.
 
@@ -176,7 +176,32 @@ def gen_each_removed(order):
         yield ins + [("R", k), ("S", k)] + [("I", k, len(order) + 1)]
 
 
-def build_batches(ctx):
+def distinct_insert_trees(mbin, n):
+    """All n! insertion orders of keys 1..n (node id = key, so that the dump depends on the shape only) are
+    run through the model; one representative order is kept per distinct resulting tree.
+    Returns (all insertion-only cases, representatives)."""
+    keys = list(range(1, n + 1))
+    orders = list(itertools.permutations(keys))
+    cases = [[("I", k, k) for k in o] for o in orders]
+    text = "".join(fmt_case(j, ops) for j, ops in enumerate(cases))
+    rc, out, err = vlib.sh2([str(mbin), "full"], stdin=text, timeout=300)
+    if rc != 0:
+        raise vlib.CheckError("model driver failed while enumerating insertion orders: " + err[-300:])
+    reps = {}
+    for o, lines in zip(orders, split_cases(out)):
+        reps.setdefault(lines[-1].split(" ", 2)[2], o)
+    return cases, list(reps.values())
+
+
+def gen_reps_all_removals(reps, n):
+    keys = list(range(1, n + 1))
+    for o in reps:
+        ins = [("I", k, k) for k in o]
+        for b in itertools.permutations(keys):
+            yield ins + [("R", k) for k in b]
+
+
+def build_batches(ctx, mbin):
     """list of (name, [ops, ...]); corpus first.  All randomness from ctx.subseed()."""
     q = ctx.quick
     batches = []
@@ -194,9 +219,37 @@ def build_batches(ctx):
                 batches.append(("perm6.%d" % j, cs[j * k:(j + 1) * k if j < 5 else len(cs)]))
         else:
             batches.append(("perm%d" % n, cs))
+    # every insertion order of n keys (compared on both sides), then every removal order from every DISTINCT
+    # tree the insertion orders produce (orders leading to the same tree are merged; node id = key)
+    shapes = {}
+    for n in ([6] if q else [6, 7]):
+        ins_cases, reps = distinct_insert_trees(mbin, n)
+        shapes[n] = len(reps)
+        batches.append(("ins%d" % n, ins_cases))
+        cs = list(gen_reps_all_removals(reps, n))
+        parts = max(1, len(cs) // 60000)
+        k = (len(cs) + parts - 1) // parts
+        for j in range(parts):
+            batches.append(("shape%d.%d" % (n, j), cs[j * k:(j + 1) * k]))
+    if not q:
+        # 8 keys: every insertion order, then a sample of removal orders from every distinct tree
+        rng8 = random.Random(ctx.subseed("shape8"))
+        ins_cases, reps = distinct_insert_trees(mbin, 8)
+        shapes[8] = len(reps)
+        for j in range(4):
+            batches.append(("ins8.%d" % j, ins_cases[j::4]))
+        cs = []
+        for o in reps:
+            ins = [("I", k, k) for k in o]
+            for _ in range(1500):
+                b = list(o)
+                rng8.shuffle(b)
+                cs.append(ins + [("R", k) for k in b])
+        for j in range(3):
+            batches.append(("shape8s.%d" % j, cs[j::3]))
+    ctx.cov["distinct_trees_from_insertion_orders"] = shapes
     rng = random.Random(ctx.subseed("perm-sample"))
     if q:
-        batches.append(("perm6s", list(gen_perms(6, rng, 1500))))
         batches.append(("perm7s", list(gen_perms(7, rng, 1500))))
     else:
         for j in range(4):
@@ -475,7 +528,7 @@ def run(ctx):
     mbin = ctx.ocaml_build("rbt_mdrv", [ml[1], ml[0], HARN / "rbt_mdrv.ml"])
     runner = Runner(ctx, cbin, mbin)
 
-    batches = build_batches(ctx)
+    batches = build_batches(ctx, mbin)
     ctx.log("generated %d batches, %d cases" % (len(batches), sum(len(c) for _, c in batches)))
     jobs = []
     for name, cs in batches:
